@@ -53,13 +53,13 @@ def run(ctx):
     mism = []        # model != implementation
     max_ttls = [3600, 60, 1] + ([2, 299, 300, 301, 1800] if ctx.thorough else [300])
     key = bytes(rng.getrandbits(8) for _ in range(48))
-    dist = {"boundary": 0, "random": 0, "edge": 0, "cross": 0}
+    dist = {"boundary": 0, "random": 0, "edge": 0, "cross": 0, "realm": 0, "carried": 0}
 
-    def one(cr, max_ttl, req_ttl, time0, t1, kind):
+    def one(cr, max_ttl, req_ttl, time0, t1, kind, realm=b""):
         if not (1 <= time0 < M32 and 1 <= t1 < M32):
             return
         cr.set_clock(time0)
-        r, diff = cr.encode_both(ttl=req_ttl, data=b"w")
+        r, diff = cr.encode_both(ttl=req_ttl, data=b"w", realm=realm)
         if diff:
             mism.append(cr.mismatches[-1])
         if r is None or r["error_num"] != 0:
@@ -129,6 +129,37 @@ def run(ctx):
                     one(cr, mt, req_ttl, time0, t1, "boundary")
                 for _ in range(6 if ctx.thorough else 2):
                     one(cr, mt, req_ttl, time0, time0 + rng.randrange(-3 * cttl - 2, 3 * cttl + 3), "random")
+        # the same whatever else the request carries: a realm, restrictions (nothing but the TTL word decides the TTL)
+        dist["realm"] = dist.get("realm", 0)
+        for req_ttl in ttls:
+            cttl = resolve_ttl(req_ttl, 300, mt)
+            for t1 in (1500000000, 1500000000 + cttl, 1500000000 + cttl + 1):
+                one(cr, mt, req_ttl, 1500000000, t1, "realm", realm=b"some-realm\0")
+        # credentials that CARRY an unusual TTL word (minted by a peer holding the key, here the spec-side builder): 0, 1, above
+        # this daemon's maximum, 2^31, 2^32-1: the window is encode_time -/+ min(ttl, max), nothing else
+        dist["carried"] = dist.get("carried", 0)
+        for cttl_carried in (0, 1, mt, mt + 1, 301, 2 ** 31, 2 ** 32 - 1):
+            time0 = 1500000000
+            cred = cr.o.build(0, 5, 0, b"", bytes(rng.getrandbits(8) for _ in range(8)), b"\x7f\0\0\1", time0, cttl_carried, 11, 12,
+                              0xFFFFFFFF, 0xFFFFFFFF, b"w", b"")
+            if cred is None:
+                continue
+            eff = min(cttl_carried, mt)
+            for t1 in sorted(set([time0 - eff - 1, time0 - eff, time0 - 1, time0, time0 + 1, time0 + eff, time0 + eff + 1, time0 + 100, time0 - 100,
+                                  time0 + 250, time0 - 250])):
+                cr.set_clock(t1)
+                d, m, diff = cr.decode_both(cred + b"\0")
+                ctx.count(("carried", mt, cttl_carried, t1))
+                dist["carried"] += 1
+                if diff:
+                    mism.append(cr.mismatches[-1])
+                want, wttl = expected(time0, cttl_carried, mt, t1)
+                if d is None or d["error_num"] not in (want, 17) or (d["error_num"] == 17 and want != 0) or d["ttl"] != wttl:
+                    fails.append({"why": "decode at t1=%d of a credential encoded at time0=%d with ttl=%d under --max-ttl=%d: "
+                                         "daemon says error %s ttl=%s, property says error %d ttl=%d (credential carrying that TTL word, "
+                                         "minted by a peer with the same key)"
+                                         % (t1, time0, cttl_carried, mt, d and d["error_num"], d and d["ttl"], want, wttl),
+                                  "max_ttl": mt, "carried_ttl": cttl_carried, "time0": time0, "t1": t1, "cred_hex": cred.hex()})
         # the edges of the 32-bit clock
         for req_ttl in (300, mt, 1):
             cttl = resolve_ttl(req_ttl, 300, mt)
